@@ -217,7 +217,7 @@ theorem facts_of_ok (rate : Option Rat) (F : File) (h : hdrOk2 rate F = true) (H
 theorem epochWf_of_wf (F : File) (hwf : F.wf = true) : (types F.hdr).Nodup ∧ (∀ kc ∈ F.hdr, PairOk kc) ∧
     ∀ e ∈ F.epochs, EpochWf (types F.hdr) e := by
   simp only [File.wf, Bool.and_eq_true, Bool.not_eq_eq_eq_not, Bool.not_true] at hwf
-  obtain ⟨⟨⟨⟨⟨⟨⟨hsty, htc⟩, hhdr⟩, hne⟩, hnd⟩, _⟩, _⟩, heps⟩ := hwf
+  obtain ⟨⟨⟨⟨⟨⟨⟨⟨⟨hsty, htc⟩, hhdr⟩, hne⟩, hnd⟩, _⟩, _⟩, heps⟩, _⟩, _⟩ := hwf
   refine ⟨nodup_of hnd, ?_, ?_⟩
   · intro kc hkc
     have := List.all_eq_true.mp hhdr kc hkc
